@@ -17,6 +17,27 @@ EXPLANATION = ("theorems: props/C01.v over the polymorphic model; correspondence
 KINDS = ["general", "onerank", "linear", "constant", "measure", "pdf"]
 
 
+def pre_check(workdir, tier):
+    """translator tie for "the operands are left unchanged" (harness/purity_extract.py): the places where a product /
+    evaluation / slice method stores into one of its operands are re-derived from /repo's current source and
+    coq/schema/PurityThm.v (there are none) is re-checked against them"""
+    import os, shutil, subprocess
+    from .. import purity_extract as pe
+    d = os.path.join(workdir, "purity")
+    os.makedirs(d, exist_ok=True)
+    names = ["operands_never_stored_to", "purity_methods_seen"]
+    try:
+        res = pe.extract(gtlib.REPO)
+    except Exception as e:
+        return dict(ok=False, theorems=names, error="translator failed closed: %s: %s" % (type(e).__name__, e))
+    open(os.path.join(d, "Purity.v"), "w").write(pe.to_coq(res))
+    shutil.copy(os.path.join(gtlib.COQ, "schema", "PurityThm.v"), d)
+    r1 = subprocess.run(["coqc", "-Q", ".", "", "Purity.v"], cwd=d, capture_output=True, text=True, timeout=300)
+    r2 = subprocess.run(["coqc", "-Q", ".", "", "PurityThm.v"], cwd=d, capture_output=True, text=True, timeout=300)
+    return dict(ok=(r1.returncode == 0 and r2.returncode == 0), theorems=names, methods=len(res),
+                stores={n: l for n, l in res if l}, closed=r2.stdout.count("Closed under the global context"), error=(r1.stderr + r2.stderr)[-800:])
+
+
 def gen_descs(g, tier):
     nshape = 8 if tier == "quick" else 40
     per = 12 if tier == "quick" else 40
